@@ -10,7 +10,7 @@ WT="${1:?repo tree}"; ID="${2:?id}"; TIER="${3:?tier}"
 S="${4:-/tmp/tpv-scratch-$ID}"
 export CARGO_NET_OFFLINE=true
 mkdir -p "$S/harness" "$S/root"
-rsync -a --delete --exclude target --exclude target-repo /verif/harness/ "$S/harness/"
+rsync -a --delete --exclude target --exclude target-repo "${HARNESS_SRC:-/verif/harness}/" "$S/harness/"
 sed -i "s#/repo/crates#$WT/crates#g" "$S/harness/Cargo.toml"
 rm -rf "$S/root/replays" "$S/root/known_findings.json" "$S/root/known_findings.d" "$S/root/corpus" "$S/root/shim"
 ln -s /verif/replays "$S/root/replays" 2>/dev/null
@@ -18,7 +18,7 @@ ln -s /verif/replays "$S/root/replays" 2>/dev/null
 [ -d /verif/known_findings.d ] && cp -r /verif/known_findings.d "$S/root/"
 [ -d /verif/corpus ] && ln -s /verif/corpus "$S/root/corpus"
 [ -d /verif/shim ] && ln -s /verif/shim "$S/root/shim"
-( cd "$S/harness" && CARGO_TARGET_DIR="$S/target" cargo build --bin tpv ) >"$S/build.log" 2>&1 || { echo "BUILD FAILED; see $S/build.log"; tail -30 "$S/build.log"; exit 2; }
+( cd "$S/harness" && CARGO_BUILD_JOBS="${CARGO_BUILD_JOBS:-8}" CARGO_TARGET_DIR="$S/target" cargo build --bin tpv ) >"$S/build.log" 2>&1 || { echo "BUILD FAILED; see $S/build.log"; tail -30 "$S/build.log"; exit 2; }
 export TPV_ROOT="$S/root" TPV_REPO="$WT"
 mkdir -p "$S/root/out"
 case "$ID" in
